@@ -97,6 +97,9 @@ def run(ctx):
             # is the syntax error inside the operand of a ${...}?  (bashlex delimits ${...} at the first '}' and never looks inside)
             e2 = re.sub(r'\$\{[^}]*\}', 'X', e)
             if e2 != e and have_bash and not bash_rejects(e2): ctxs.append('+in-brace-operand')
+            # ... or inside a <( ) / >( ) that bashlex does not parse because the word starts with a double quote (D6-leading-dquote)?
+            e3 = re.sub(r'("[^"\n]*"[^\s<>()]*)[<>]\([^)]*\)', r'\1X', e)
+            if e3 != e and have_bash and not bash_rejects(e3): ctxs.append('+in-unparsed-procsub')
             sig = 'accepted:' + kind.split(':')[0] + ''.join(ctxs)
             sig_count[sig] += 1
             fid = common.match_finding(findings, sig, e)
